@@ -343,6 +343,59 @@ Example C15_refresher_nonvacuous :
    (exists it, In it (q_items (k_ret (snd rf_st1))) /\ ri_del it = false /\ ri_pk it = o_pk rf_o /\ ri_inq it = true)).
 Proof. exact (conj rf_saw (conj rf_unchanged_and_changed rf_retry_state)). Qed.
 
+(* ---- which (object, revision) pairs the refresher picks, and when: one sweep of refreshLoop over a read snapshot
+   (Reconciler/Sweep.v: revision order from the cursor, the age test, the rate limiter as arbitrary waits before each
+   write, the new cursor, the duration the timer is re-armed for). `upd` = Status.UpdatedAt (not part of Model.obj; any
+   assignment). Ties the timing-free theorems above to the loop as coded; the loop itself runs against the
+   implementation in the directed probes only. *)
+From SV Require Import Reconciler.Sweep.
+
+(* every pair the sweep hands to the write transaction is a live Done object of the snapshot at that revision, above
+   the cursor, at least RefreshInterval old when written *)
+Theorem C15_refresher_sweep_picks_only_old_done_objects : forall upd iv now last snap delays c, twf snap ->
+  In c (fst (fst (refresh_sweep upd iv now last snap delays))) ->
+  refresher_saw snap (cd_obj c) (cd_rev c) /\ last < cd_rev c /\ iv <= cd_at c - upd (cd_obj c) /\ now <= cd_at c.
+Proof. exact sweep_candidates_seen. Qed.
+Print Assumptions C15_refresher_sweep_picks_only_old_done_objects.
+
+(* and none is skipped: with time stamps monotone in revision order (every status write stamps the current time),
+   every live Done object above the cursor that is RefreshInterval old at the start of the sweep is picked *)
+Theorem C15_refresher_sweep_refreshes_every_old_done_object : forall upd iv now last snap delays o r, twf snap ->
+  upd_mono upd (live_stream snap last) -> 0 < iv ->
+  t_live snap (o_pk o) = Some (o, r) -> last < r -> o_kind o = Done -> iv <= now - upd o ->
+  exists c, In c (fst (fst (refresh_sweep upd iv now last snap delays))) /\ cd_obj c = o /\ cd_rev c = r.
+Proof. exact sweep_refreshes_every_old_done_object. Qed.
+Print Assumptions C15_refresher_sweep_refreshes_every_old_done_object.
+
+(* the write of a picked pair, at any later moment, is the model's `ref` write of an object unchanged since the
+   snapshot, or nothing *)
+Theorem C15_refresher_sweep_write_is_ref_or_nothing : forall upd iv now last snap delays c e, twf snap -> tstep snap (e_tab e) ->
+  In c (fst (fst (refresh_sweep upd iv now last snap delays))) ->
+  (slot_of (e_tab e) (o_pk (cd_obj c)) = slot_of snap (o_pk (cd_obj c)) /\
+   refresh_write (e_tab e) (cd_obj c) (cd_rev c) = e_tab (do_write e 5 (o_pk (cd_obj c)))) \/
+  (slot_of (e_tab e) (o_pk (cd_obj c)) <> slot_of snap (o_pk (cd_obj c)) /\
+   refresh_write (e_tab e) (cd_obj c) (cd_rev c) = e_tab e).
+Proof. exact sweep_write_is_ref_or_nothing. Qed.
+Print Assumptions C15_refresher_sweep_write_is_ref_or_nothing.
+
+(* the timer is re-armed for a positive duration of at most RefreshInterval; the cursor moves to a revision seen *)
+Theorem C15_refresher_sweep_timer_and_cursor : forall upd objs iv now last delays cs l dur,
+  sweep upd iv now last objs delays = (cs, l, dur) ->
+  (0 < iv -> 0 < dur /\ dur <= iv) /\ (l = last \/ exists ch, In ch objs /\ l = c_rev ch).
+Proof.
+  exact (fun upd objs iv now last delays cs l dur H =>
+    conj (sweep_duration upd objs iv now last delays cs l dur H) (proj1 (sweep_cursor upd objs iv now last delays cs l dur H))).
+Qed.
+Print Assumptions C15_refresher_sweep_timer_and_cursor.
+
+Example C15_refresher_sweep_nonvacuous :
+  refresh_sweep sw_upd 20 30 0 sw_snap [4; 4; 4] =
+    ([mkCand (mkObj 1 1 Done 1 0) 1 34; mkCand (mkObj 2 1 Done 2 0) 2 38], 3, 20) /\
+  refresh_sweep sw_upd 20 30 3 sw_snap [] = ([], 3, 20) /\
+  refresh_sweep sw_upd 20 60 0 sw_snap [] =
+    ([mkCand (mkObj 1 1 Done 1 0) 1 60; mkCand (mkObj 2 1 Done 2 0) 2 60], 3, 10).
+Proof. exact sweep_example. Qed.
+
 (* ------------------------------------------------------------------------------------------------------------
    reconciler/types.go StatusSet — the data structure behind "a status-only change by a second reconciler".
    In Model.v a reconciler's view of an object's status is (o_kind, o_sid) and what the other writers own is
